@@ -31,7 +31,7 @@ def answer (line : String) : String :=
       match C18.handle case with
       | .ok (m, s) => m ++ "\t" ++ (if impl == s then "ok" else "bad:differs-from-reference-editor")
       | .error e => "error:" ++ e ++ "\terror"
-    | "C01" | "C14" | "C05" | "C10S" | "C20S" => C01.answer case impl
+    | "C01" | "C14" | "C05" | "C10S" | "C20S" | "C07S" => C01.answer case impl
     | "C09" => C09.answer case impl
     | "C10" =>
       match C10.handle case impl with
